@@ -10,16 +10,14 @@ from pathlib import Path
 VERIF = Path(__file__).resolve().parent.parent
 seed_dir = VERIF / "seeded"
 props = [json.loads(l)["id"] for l in (VERIF / "properties.jsonl").read_text().splitlines() if l.strip()]
-rows = []
-for d in sorted(p for p in seed_dir.iterdir() if (p / "patch.diff").exists()):
+def analyse(d: Path):
     meta = json.loads((d / "meta.json").read_text())
     target = meta["property"]
     with tempfile.TemporaryDirectory(prefix="icg_seedrep_") as td:
         shutil.copytree("/repo/incomplete_cooperative", Path(td) / "incomplete_cooperative", ignore=shutil.ignore_patterns("__pycache__"))
         r = subprocess.run(["patch", "-p1", "-s", "-i", str(d / "patch.diff")], cwd=td, capture_output=True, text=True)
         if r.returncode != 0:
-            rows.append((d.name, target, "patch does not apply on the current tree", "", ""))
-            continue
+            return (d.name, target, "patch does not apply on the current tree", "", "")
         res = {}
         for pid in props:
             out = subprocess.run([str(VERIF / "check"), pid, "--repo", td, "--no-evidence"], capture_output=True, text=True)
@@ -35,7 +33,13 @@ for d in sorted(p for p in seed_dir.iterdir() if (p / "patch.diff").exists()):
     others = {k: v["rules"] for k, v in res.items() if k != target and v["exit"] == 1}
     meta["detection"] = {"own_property": own or {"exit": 0}, "verdict": verdict, "also_reported_by": others}
     (d / "meta.json").write_text(json.dumps(meta, indent=1))
-    rows.append((d.name, target, verdict, ", ".join(own["rules"]) if own and own["exit"] == 1 else "", ", ".join(f"{k}:{'/'.join(v)}" for k, v in sorted(others.items()))))
+    return (d.name, target, verdict, ", ".join(own["rules"]) if own and own["exit"] == 1 else "", ", ".join(f"{k}:{'/'.join(v)}" for k, v in sorted(others.items())))
+
+
+from concurrent.futures import ThreadPoolExecutor  # noqa: E402
+import os  # noqa: E402
+with ThreadPoolExecutor(int(os.environ.get("SEED_JOBS", "8"))) as ex:
+    rows = list(ex.map(analyse, sorted(p for p in seed_dir.iterdir() if (p / "patch.diff").exists())))
 lines = ["# Seeded changes vs. the checks", "",
          "Each change was written by a sub-agent that saw only the property text and its own scratch worktree; it was then confirmed independently",
          "(`tools/confirm_seed.py`: demo passes on the clean tree, fails with the patch, the pinned stable tests still pass) and is analysed here on a",
